@@ -18,6 +18,7 @@ import (
 
 	"verifharness/awk"
 	"verifharness/core"
+	"verifharness/progenum"
 )
 
 // C18 — coverage instrumentation is transparent and its counts are exact
@@ -1030,6 +1031,68 @@ func c18Dir(c *core.Ctx) string {
 	return dir
 }
 
+// c18Transparency: transparency alone (same standard output, standard error
+// class and exit status with coverage in set and count mode as without) over
+// the expression-level program families of C01: what the statements of the
+// structural enumeration above never contain (concatenations, literals,
+// builtins, calls, conditions, augmented assignments ...).
+func c18Transparency(c *core.Ctx, r *c18Runner) {
+	f := func(pc progenum.Case) {
+		if !c.Mine() || c.Expired() {
+			return
+		}
+		c18TPEval(c, r, pc)
+	}
+	th := c.Thorough()
+	progenum.EnumConcat(th, f)
+	progenum.EnumMisc(th, f)
+	progenum.EnumBuiltins(th, f)
+	progenum.EnumCalls(th, f)
+	progenum.EnumControl(th, f)
+	progenum.EnumBoolValue(th, f)
+	progenum.EnumEmptyBody(th, f)
+	if th {
+		progenum.EnumCond(th, f)
+		progenum.EnumLvalue(th, f)
+	}
+}
+
+func c18TPEval(c *core.Ctx, r *c18Runner, pc progenum.Case) {
+	path := filepath.Join(r.dir, "tp.awk")
+	const input = "a b c\n1 2\n"
+	{
+		if usesFiles(pc.Src) || strings.Contains(pc.Src, "system(") || strings.Contains(pc.Src, "|") {
+			return
+		}
+		if err := os.WriteFile(path, []byte(pc.Src+"\n"), 0o644); err != nil {
+			panic(err)
+		}
+		var outs [3]vexp.CoverRunResult
+		for i, mode := range []string{"", "set", "count"} {
+			outs[i] = vexp.CoverRun([]string{path}, mode, false, "", input, []string{"p", "1"}, []string{"E1", "x"})
+			c.Eval(1)
+		}
+		c.Add("states", 1)
+		c.Add("transitions", 3)
+		c.Add("transparency_programs", 1)
+		if outs[0].Status == 2 && outs[0].Stdout == "" {
+			return // rejected by the parser or fails before any output: nothing to compare
+		}
+		c.Outcome(fmt.Sprintf("tp %q %d", outs[0].Stdout, outs[0].Status))
+		for i, mode := range []string{"", "set", "count"} {
+			if i == 0 {
+				continue
+			}
+			if outs[i].Stdout != outs[0].Stdout || outs[i].Status != outs[0].Status || (outs[i].Stderr == "") != (outs[0].Stderr == "") {
+				r.fail("transparency:expression-program:mode="+mode, c18Case{Src: pc.Src, Mode: mode, Feature: "expression:" + pc.Family},
+					fmt.Sprintf("without coverage: %q status=%d stderr=%q; with -covermode %s: %q status=%d stderr=%q", trunc(outs[0].Stdout, 200), outs[0].Status, trunc(outs[0].Stderr, 80), mode, trunc(outs[i].Stdout, 200), outs[i].Status, trunc(outs[i].Stderr, 80)))
+				break
+			}
+		}
+	}
+	os.Remove(path)
+}
+
 func c18Run(c *core.Ctx) {
 	// development aid: C18_DRY=1 only enumerates, renders, parses and counts the planned process runs
 	dry := os.Getenv("C18_DRY") != ""
@@ -1099,6 +1162,9 @@ func c18Run(c *core.Ctx) {
 		r.evalProgram(src, p.Product, c18Feature(p), nil)
 		return true
 	})
+	if r != nil && !dry {
+		c18Transparency(c, r)
+	}
 	if r != nil {
 		var sigs []string
 		for s, k := range r.caps {
@@ -1125,6 +1191,10 @@ func c18Replay(c *core.Ctx, raw json.RawMessage) {
 	}
 	defer os.RemoveAll(dir)
 	r := c18NewRunner(c, dir, 0)
+	if strings.HasPrefix(cs.Feature, "expression:") {
+		c18TPEval(c, r, progenum.Case{Family: strings.TrimPrefix(cs.Feature, "expression:"), Src: cs.Src})
+		return
+	}
 	if cs.Mode == "" {
 		r.evalProgram(cs.Src, cs.Product, cs.Feature, nil)
 		return
@@ -1144,7 +1214,7 @@ func init() {
 			"fully explored levels also: three -f files at every pair of line boundaries x count mode x {input 2 fresh, input 1 appended}; " +
 			"full product for levels A and B (thorough A n=3 / B a+b=2 in K&R layout and level C n=3: split files x both modes x {input 1 fresh, input 2 appended}; thorough C n=4: split files x {count, input 2, append off}). " +
 			"state = one program text, transition = one goawk process run with -coverprofile; " +
-			"each transition is compared with the run without coverage (stdout, status) and every line of its profile with the file contents, the parsed statement lists and the reference evaluator's per-statement execution counts; distinct = distinct (profile, stdout, status)",
+			"each transition is compared with the run without coverage (stdout, status) and every line of its profile with the file contents, the parsed statement lists and the reference evaluator's per-statement execution counts; distinct = distinct (profile, stdout, status) Transparency alone (stdout, stderr class, exit status equal without coverage / set / count) additionally over the expression-level program families of C01 (concatenation groupings, misc, builtins, calls, control, boolean values, empty bodies; thorough: conditions and lvalue forms), in-process.",
 		Assumptions: []string{
 			"every 40th (thorough: 10th) program is observed on the real CLI binary built from the current tree (subprocess, environment {E1,E2} only); the others run the same steps as goawk.go's main in-process (vexp.CoverRun: FileReader, parse, cover.Annotate, re-resolve, re-compile, execute, WriteProfile), because a process start costs 10-30 ms in this sandbox",
 			"the run without coverage is made once per program and input with a single -f file; when a coverage run on split files differs from it, the run without coverage is repeated on exactly those files and that result decides",
